@@ -74,7 +74,7 @@ pub type ExtraJobs<'a> = fn(&'a Cfg, &mut Vec<Box<dyn FnMut(&mut dyn Write) + 'a
 
 pub fn run<'a>(cfg: &'a Cfg, hp: HP, extra_jobs: ExtraJobs<'a>) -> i32 {
     let start = Instant::now();
-    if let Some(path) = &cfg.replay {
+    if let Some(path) = cfg.replay.as_ref().filter(|p| replay_case_is(p, |c| (c["ops"].is_array() && c["cfg"].is_object()) || (c["seed"].is_u64() && (c.get("capacity").is_some() || c.get("terminal_capacity").is_some())))) {
         return replay(&hp, cfg, path);
     }
     let mut jobs: Vec<Box<dyn FnMut(&mut dyn Write) + 'a>> = vec![];
